@@ -112,7 +112,8 @@ def ensure_driver(tie):
     return ok and os.path.exists(DRIVER)
 
 
-_AX_RX = re.compile(r"'([^']+)' depends on axioms: \[([^\]]*)\]|'([^']+)' does not depend on any axioms")
+# (theorem names may end in primes: the name is everything between the first quote and the quote before " depends")
+_AX_RX = re.compile(r"'(\S+)' depends on axioms: \[([^\]]*)\]|'(\S+)' does not depend on any axioms")
 
 
 def audit(prop, tie):
